@@ -70,6 +70,7 @@ func (c *ctx) reuseSpace() {
 	}
 	c.r.Eval(total)
 	c.r.Nontrivial(nontrivial)
+	c.messageReuse(shapes)
 	c.r.Space("receiver-reuse", total, nontrivial, true, "every ordered pair of 24 L_Data layouts (info length 0/1/4 x control unit, data unit of 1/5/20 octets x numbered) decoded into one LData value one after the other; the second result must equal a fresh decode")
 }
 
@@ -175,4 +176,89 @@ func replayTrailing(raw []byte) (string, bool) {
 	_, err := cemi.Unpack(long, &b)
 	desc := fmt.Sprintf("layout alone: %s; with spare octets: err=%v %s", showMsg(a), err, showMsg(b))
 	return desc, err != nil || !reflect.DeepEqual(normInfo(a), normInfo(b))
+}
+
+// messageReuse: the same ordered pairs through cemi.Unpack with ONE message variable, as a receive
+// loop would use it: the value obtained from the first layout must not change when the second
+// layout is decoded into the variable (a decoder that re-uses the message it finds there), the
+// second result must equal a fresh decode, and a second layout that is rejected (cut short by one
+// octet) must leave both the variable and the first value as they were.
+func (c *ctx) messageReuse(shapes []*fields) {
+	var total, nontrivial int64
+	render := func(m cemi.Message) string {
+		if m == nil {
+			return "<nil>"
+		}
+		b := make([]byte, cemi.Size(m))
+		cemi.Pack(b, m)
+		return hex.EncodeToString(b)
+	}
+	for _, a := range shapes {
+		la, _ := refLData(a)
+		for _, b := range shapes {
+			lb, _ := refLData(b)
+			for _, cut := range []bool{false, true} {
+				total++
+				second := lb
+				if cut {
+					second = lb[:len(lb)-1]
+				}
+				var m, fresh cemi.Message
+				if _, err := cemi.Unpack(la, &m); err != nil {
+					continue
+				}
+				first := m
+				before := render(first)
+				_, errFresh := cemi.Unpack(second, &fresh)
+				_, err := cemi.Unpack(second, &m)
+				in := map[string]string{"first": hex.EncodeToString(la), "second": hex.EncodeToString(second)}
+				test := fmt.Sprintf("func TestC11MessageVariableReuse(t *testing.T) {\n\ta, _ := hex.DecodeString(%q)\n\tb, _ := hex.DecodeString(%q)\n\tvar m cemi.Message\n\tcemi.Unpack(a, &m)\n\tfirst := m\n\twant := fmt.Sprintf(\"%%+v\", first.(*cemi.LDataInd).LData.Data)\n\tcemi.Unpack(b, &m)\n\tif got := fmt.Sprintf(\"%%+v\", first.(*cemi.LDataInd).LData.Data); got != want {\n\t\tt.Fatalf(\"the value decoded first changed from %%s to %%s\", want, got)\n\t}\n}", in["first"], in["second"])
+				nontrivial++
+				if after := render(first); after != before {
+					c.r.ViolationWithTest("C11:unpack-message-reuse", fmt.Sprintf("the message decoded from A = %s reads %s after B = %s was decoded into the same message variable (cemi.Unpack re-uses the value it finds there); it read %s before", in["first"], after, in["second"], before), in, test)
+					continue
+				}
+				if (err == nil) != (errFresh == nil) {
+					c.r.ViolationWithTest("C11:unpack-message-reuse", fmt.Sprintf("B = %s decoded into a variable that holds the message of A = %s: err=%v; into an empty variable: err=%v", in["second"], in["first"], err, errFresh), in, test)
+					continue
+				}
+				if err == nil && render(m) != render(fresh) {
+					c.r.ViolationWithTest("C11:unpack-message-reuse", fmt.Sprintf("B = %s decoded into a variable that holds the message of A = %s yields %s, into an empty variable %s", in["second"], in["first"], render(m), render(fresh)), in, test)
+					continue
+				}
+				if err != nil && (m != first || render(m) != before) {
+					c.r.ViolationWithTest("C11:unpack-message-reuse", fmt.Sprintf("B = %s is rejected (%v) but the variable that held the message of A = %s now reads %s (before: %s)", in["second"], err, in["first"], render(m), before), in, test)
+				}
+			}
+		}
+	}
+	c.r.Eval(total)
+	c.r.Nontrivial(nontrivial)
+	c.r.Space("message-variable-reuse", total, nontrivial, true, "every ordered pair of the 24 layouts (second one whole and cut short by one octet) through cemi.Unpack with one message variable: the first value is unchanged, the second equals a fresh decode, a rejected layout changes nothing")
+}
+
+func replayMessageReuse(raw []byte) (string, bool) {
+	var in struct{ First, Second string }
+	if err := json.Unmarshal(raw, &in); err != nil {
+		return "cannot decode input: " + err.Error(), false
+	}
+	la, _ := hex.DecodeString(in.First)
+	lb, _ := hex.DecodeString(in.Second)
+	render := func(m cemi.Message) string {
+		if m == nil {
+			return "<nil>"
+		}
+		b := make([]byte, cemi.Size(m))
+		cemi.Pack(b, m)
+		return hex.EncodeToString(b)
+	}
+	var m, fresh cemi.Message
+	cemi.Unpack(la, &m)
+	first := m
+	before := render(first)
+	_, errFresh := cemi.Unpack(lb, &fresh)
+	_, err := cemi.Unpack(lb, &m)
+	desc := fmt.Sprintf("A=%s then B=%s through one message variable: first value before %s, after %s; second err=%v value %s; fresh decode err=%v value %s", in.First, in.Second, before, render(first), err, render(m), errFresh, render(fresh))
+	bad := render(first) != before || (err == nil) != (errFresh == nil) || err == nil && render(m) != render(fresh) || err != nil && (m != first || render(m) != before)
+	return desc, bad
 }
